@@ -80,6 +80,12 @@ pub fn corrupt(rng: &mut Rng, b: &mut Vec<u8>) -> &'static str {
         0 => {
             // header scalar fields
             let (off, wide) = *rng.pick(&[(24usize, false), (26, false), (28, false), (30, false), (32, false), (40, true), (44, true), (48, true), (52, true), (56, true), (60, true), (64, true), (68, true), (72, true)]);
+            if rng.chance(1, 8) {
+                // the signature and the reserved CLSID field in front of the version fields
+                let k = rng.below(24) as usize;
+                b[k] ^= 1 << rng.below(8);
+                return "header-magic-or-clsid";
+            }
             if wide {
                 let v = special(rng, l.nsec);
                 wr32(b, off, v);
